@@ -239,3 +239,89 @@ def fuse_generators(P, f):
         for c in ast.iter_child_nodes(n):
             c._parent = n
     return new
+
+
+def _is_true(e):
+    return isinstance(e, ast.Constant) and e.value in (True, 1)
+
+
+def _negate(e):
+    if isinstance(e, ast.UnaryOp) and isinstance(e.op, ast.Not):
+        return copy.deepcopy(e.operand)
+    return ast.UnaryOp(op=ast.Not(), operand=copy.deepcopy(e))
+
+
+def rotate_while_true(body):
+    """Loop-and-a-half normalisation.  In a statement list, a loop
+
+        while True:  P;  if C1: break;  [if C2: break; ...]  B
+
+    (P simple statements, the breaks directly in the loop body) is the loop
+
+        P;  while not C1 [and not C2 ...]:  B';  P
+
+    with every `continue` of that loop in B replaced by `P; continue`.  Returns a rewritten copy of `body` and the number
+    of loops rotated (0: nothing to do)."""
+    body = copy.deepcopy(body)
+    count = [0]
+
+    def own_continues(stmts, P):
+        out = []
+        for s in stmts:
+            if isinstance(s, ast.Continue):
+                out.extend(copy.deepcopy(P))
+                out.append(s)
+                continue
+            if isinstance(s, (ast.While, ast.For, ast.FunctionDef, ast.AsyncFunctionDef, ast.ClassDef)):
+                out.append(s)  # inner loops own their continues
+                continue
+            for fld in ("body", "orelse", "finalbody", "handlers"):
+                sub = getattr(s, fld, None)
+                if isinstance(sub, list) and sub and isinstance(sub[0], ast.stmt):
+                    setattr(s, fld, own_continues(sub, P))
+                elif isinstance(sub, list) and sub and isinstance(sub[0], ast.ExceptHandler):
+                    for h in sub:
+                        h.body = own_continues(h.body, P)
+            out.append(s)
+        return out
+
+    def visit(stmts):
+        out = []
+        for s in stmts:
+            for fld in ("body", "orelse", "finalbody"):
+                sub = getattr(s, fld, None)
+                if isinstance(sub, list) and sub and isinstance(sub[0], ast.stmt):
+                    setattr(s, fld, visit(sub))
+            if isinstance(s, ast.While) and _is_true(s.test) and not s.orelse:
+                i = 0
+                while i < len(s.body) and isinstance(s.body[i], (ast.Assign, ast.AugAssign, ast.Expr)) and not any(isinstance(x, (ast.Yield, ast.YieldFrom)) for x in ast.walk(s.body[i])):
+                    i += 1
+                P = s.body[:i]
+                j = i
+                conds = []
+                while j < len(s.body) and isinstance(s.body[j], ast.If) and not s.body[j].orelse and len(s.body[j].body) == 1 and isinstance(s.body[j].body[0], ast.Break):
+                    conds.append(s.body[j].test)
+                    j += 1
+                if conds:
+                    B = s.body[j:]
+                    tests = [_negate(c) for c in conds]
+                    test = tests[0] if len(tests) == 1 else ast.BoolOp(op=ast.And(), values=tests)
+                    newbody = own_continues(B, P) + copy.deepcopy(P)
+                    if not newbody:
+                        newbody = [ast.Pass()]
+                    w = ast.While(test=test, body=newbody, orelse=[])
+                    ast.copy_location(w, s)
+                    out.extend(P)
+                    out.append(w)
+                    count[0] += 1
+                    continue
+            out.append(s)
+        return out
+
+    new = visit(body)
+    mod = ast.Module(body=new, type_ignores=[])
+    ast.fix_missing_locations(mod)
+    for n in ast.walk(mod):
+        for c in ast.iter_child_nodes(n):
+            c._parent = n
+    return new, count[0]
